@@ -45,7 +45,8 @@ type Script struct {
 	Stops      []StopAt `json:"stops"`
 	FailCall   int      `json:"fail_call"` // targeter fails at this call (1-based), 0 = never
 	Name       string   `json:"name"`
-	MaxHits    int      `json:"max_hits"` // pacer answers stop once this many hits were released (safety net for unlimited scripts), 0 = none
+	MaxHits    int      `json:"max_hits"`             // pacer answers stop once this many hits were released (safety net for unlimited scripts), 0 = none
+	TimeoutMs  int      `json:"timeout_ms,omitempty"` // request timeout of the client, 0 = none
 }
 
 func pick(xs []int, i int, def int) int {
@@ -207,7 +208,7 @@ func runScript(t *testing.T, tr *Tracer, sc *Script) {
 		base := bubbleGoroutines()
 
 		opts := []func(*vegeta.Attacker){
-			vegeta.Client(&http.Client{Transport: &scriptRT{tr, sc, now}}),
+			vegeta.Client(&http.Client{Transport: &scriptRT{tr, sc, now}, Timeout: time.Duration(sc.TimeoutMs) * time.Millisecond}),
 			vegeta.Workers(uint64(sc.Workers)),
 		}
 		if sc.MaxWorkers >= 0 {
